@@ -9,7 +9,7 @@ import Qryn.Base.Time
 
     One sub-select per tag on the attribute index, joined pairwise on (trace_id, span_id); dates and numbers are printed
     by the code (`toDate('%s')` of a formatted time, `%d`). `v2` = `Ver.IsVersionSupported("tempo_v2", from, to)`. -/
-namespace Qryn.Tempo
+namespace Qryn.TempoSegs
 open Qryn Qryn.Sql
 
 inductive TagOp | eq | neq | re | nre
@@ -144,4 +144,4 @@ def traceSel (table : String) (traceId : Bytes) (startNs endNs : Int) : Sel :=
 def tagValuesSel (table : String) (tag : Bytes) : Sel :=
   .mk [] true [.raw "val"] (some (.raw table)) [] none (some (and_ [eq (.raw "key") (.str tag)])) [] none [.raw "val"] none
 
-end Qryn.Tempo
+end Qryn.TempoSegs
